@@ -1,8 +1,99 @@
 /-
-  C07 — property theorems (see DESIGN.md §5 C07).
+  C07 — the control-file reader returns, for every well-formed document in every layout,
+  exactly the paragraphs of the document; what every returned paragraph satisfies on
+  arbitrary input; `All` is the iteration of `Next` and always terminates.
+  Property theorems only; lemmas live in GoDebian/Lemmas/Deb822Read*.lean.
 -/
 import GoDebian.Model.Deb822
 import GoDebian.Spec.Deb822
+import GoDebian.Lemmas.Deb822Read
+import GoDebian.Lemmas.Deb822ReadNext
 
 namespace GoDebian.Props.C07
+open GoDebian GoDebian.Deb822 GoDebian.Spec.Deb822
+
+/-! ### arbitrary input -/
+
+/-- Whatever the input bytes, every paragraph `All` returns has a non-empty `Order`
+    without duplicates whose elements are exactly the keys of `Values`. -/
+theorem C07_invariant (bs : Bytes) (ps : List Paragraph) (h : all bs = .ok ps) :
+    ∀ p ∈ ps, p.order ≠ [] ∧ p.order.Nodup ∧ ∀ k, k ∈ p.order ↔ (lookup k p.values).isSome :=
+  Lemmas.Deb822Read.all_invariant bs ps h
+
+/-- The hypothesis is satisfiable on input outside the image of `render`: a repeated
+    field (the later value wins, the key is listed once), no white space after the colon,
+    a value containing a colon, a comment between paragraphs. -/
+example :
+    all (Bytes.ofString "A: 1\nB:2:3\nA: 4\n#c\n\n\nC:\n x\n") =
+      .ok [⟨[[65], [66]], [([65], [52]), ([66], Bytes.ofString "2:3")]⟩,
+           ⟨[[67]], [([67], Bytes.ofString "x\n")]⟩] := by
+  decide +kernel
+
+/-! ### `All` and `Next` -/
+
+/-- `All` is by definition the iteration of `Next`: both entry points see the same
+    sequence of paragraphs. -/
+theorem C07_all_is_iterated_next (fuel : Nat) (lines : List Bytes) (acc : List Paragraph) :
+    allAux (fuel+1) lines acc = match next lines with
+      | .eof => .ok acc
+      | .bad => .error .err
+      | .para p rest => allAux fuel rest (acc ++ [p]) :=
+  Lemmas.Deb822Read.allAux_succ fuel lines acc
+
+/-- `Next` returns strictly fewer lines than it was given … -/
+theorem C07_next_consumes (lines : List Bytes) (p : Paragraph) (rest : List Bytes)
+    (h : next lines = .para p rest) : rest.length < lines.length :=
+  (Lemmas.Deb822Read.next_para h).2.2
+
+/-- … so the fuel of `All` always suffices, and no step can panic: the only outcomes are
+    a list of paragraphs or an error value. -/
+theorem C07_all_total (bs : Bytes) : all bs ≠ .error .fuel ∧ all bs ≠ .error .panic :=
+  Lemmas.Deb822Read.all_total bs
+
+/-- Both remaining outcomes occur: a line without a colon and a continuation line with no
+    field before it are errors. -/
+example :
+    all (Bytes.ofString "A: 1\n\nnocolon\n") = .error .err ∧
+    all (Bytes.ofString " x\n") = .error .err ∧
+    all (Bytes.ofString "\n\r\n# only a comment\n") = .ok [] := by
+  decide +kernel
+
+/-! ### well-formed documents -/
+
+/-- Main theorem: every well-formed document, rendered in any layout the format allows
+    (LF or CRLF per line, empty lines before, after and between paragraphs, comment
+    lines, any of the four paddings after the colon, trailing blanks, blank or tab as
+    continuation marker, with or without the final line terminator), is read back as
+    exactly its paragraphs, in order, with exactly the expected values. -/
+theorem C07_read_render (d : Doc) (cs : Choices) (h : wfDoc d = true) :
+    all (render d cs) = .ok (d.map expectedPara) :=
+  Lemmas.Deb822ReadNext.all_read_render d cs h
+
+/-- A well-formed two-paragraph document and a layout exercising every choice: leading
+    CRLF empty line, comments before a field and before a continuation line, double-space
+    and tab padding, trailing blank and tab, tab marker, an empty logical line (" ."), a
+    continuation line whose text starts with a blank, two separating empty lines, an
+    empty value, a value that is only continuation lines, no final line terminator. -/
+example :
+    let B := Bytes.ofString
+    let d : Doc :=
+      [[⟨B "Package", B "hello", []⟩,
+        ⟨B "Description", B "short text", [B "long line", [], B " indented"]⟩],
+       [⟨B "Empty", [], []⟩, ⟨B "Multi", [], [B "a"]⟩]]
+    let cs : Choices := [1, 1, 1, 0, 2, 1, 0, 0, 3, 0, 1, 0, 1, 2, 0, 1, 1, 0, 0, 1, 0, 0, 0, 0,
+      1, 1, 0, 0, 1, 1, 0, 0, 0, 0, 0, 0, 0, 0, 1, 0, 1]
+    wfDoc d = true ∧
+    render d cs = B ("\r\n# note\nPackage:  hello \nDescription:\tshort text\r\n\tlong line\t\n" ++
+      "# note\r\n .\r\n  indented\n\r\n\nEmpty: \nMulti:\n a") ∧
+    d.map expectedPara =
+      [⟨[B "Package", B "Description"],
+        [(B "Package", B "hello"), (B "Description", B "short text\nlong line\n\n indented\n")]⟩,
+       ⟨[B "Empty", B "Multi"], [(B "Empty", []), (B "Multi", B "a\n")]⟩] := by
+  decide +kernel
+
+/-- The empty document is well-formed; its renderings are runs of empty lines (here LF,
+    CRLF with the final terminator dropped). -/
+example : wfDoc [] = true ∧ render [] [2, 0, 1, 0, 1] = [10] ∧ render [] [] = [] := by
+  decide +kernel
+
 end GoDebian.Props.C07
